@@ -433,7 +433,7 @@ pub fn generate(rec: &mut Recorder, args: &Args) {
         g.case_wrong(s, Mode::Cur, prog_bytes(2));
         g.case_bump(s, Mode::Fixed(2), [3; 32]);
     }
-    let n = if args.thorough() { 20_000 } else { 2_000 };
+    let n = if args.thorough() { 100_000 } else { 2_000 };
     for _ in 0..n {
         let s = g.shapes[g.rng.below(g.shapes.len() as u64) as usize].clone();
         let (mode, ctx) = g.pick_mode();
